@@ -320,7 +320,7 @@ def gen(seed, run, tier='quick'):
         s1 = rng.choice(noref_syms if x < 0.25 else user_syms
                         if x < 0.7 else syms)
         s2 = rng.choice(user_syms if rng.random() < 0.5 else syms)
-        n = rng.choice([2, 2, 3, -1, -2, 0, 1])
+        n = rng.choice([2, 2, 3, -1, -2, 0, 1, 4, -3])
         if form in ('u**', 'q**'):
             bvec, num = model.expand([(s1, n)])
         elif form in ('k/u', 'k/q'):
